@@ -1,1 +1,2 @@
 -- property theorems
+import Properties.C18
